@@ -1580,6 +1580,20 @@ def call_builtin(interp, name, args, kwargs):
             raise Raised(Exc('calendar.IllegalMonthError', 'bad month number'))
         length = (29 if leap() else 28) if mo.value == 2 else _cal.monthrange(2001, mo.value)[1]
         return ListV([Atom('weekday-of-first', [y, mo], 'int'), Const(length)], 'tuple')
+    if name in ('bisect.bisect', 'bisect.bisect_right', 'bisect.bisect_left') and len(args) >= 2 and not kwargs:
+        seq = args[0]
+        items = seq.items if isinstance(seq, ListV) else None
+        if items is not None and all(isinstance(i, Const) and isinstance(i.value, (int, float, str)) and not isinstance(i.value, bool) for i in items) \
+                and all(isinstance(a, Const) for a in args[1:]):
+            import bisect as _bs        # constant folding of a pure stdlib function
+            try:
+                return Const(getattr(_bs, short)([i.value for i in items], *[a.value for a in args[1:]]))
+            except TypeError:
+                raise Raised(Exc('TypeError', 'unorderable'))
+        raise Unmodelled('bisect on a symbolic sequence')
+    if name == 'fnmatch.translate' and len(args) == 1 and isinstance(args[0], Const) and isinstance(args[0].value, str):
+        import fnmatch as _fn           # constant folding of a pure stdlib function
+        return Const(_fn.translate(args[0].value))
     if name in ('fnmatch.fnmatch', 'fnmatch.fnmatchcase'):
         for a in args[:2]:
             if a.tag is not None and a.tag != 'str':
